@@ -38,15 +38,19 @@ def fmt(x, prec, con):
     return True, "none", out, ok2, out2
 
 
-def observe(form, c, naive, src, prec, con, nb=None):
+def observe(form, c, naive, src, prec, con, nb=None, first=None):
     if form == "str":
         x = src
+    elif form == "stixdt":
+        from stix2.utils import parse_into_datetime
+        x = parse_into_datetime(mkdt(c, naive), *first)
+        c = civil(x, 0)     # the value actually handed over is the (possibly truncated) STIXdatetime, in UTC
     elif form == "date":
         x = dt.date(c["y"], c["mo"], c["d"])
     else:
         x = mkdt(c, naive)
     ok, exc, out, ok2, out2 = fmt(x, prec, con)
-    line = {"form": form, "c": c if c else {}, "naive": bool(naive), "src": codes(src) if src else [], "prec": prec, "con": con,
+    line = {"form": "dt" if form == "stixdt" else form, "first": list(first) if first else [], "c": c if c else {}, "naive": bool(naive), "src": codes(src) if src else [], "prec": prec, "con": con,
             "ok": ok, "exc": exc, "out": codes(out), "ok2": ok2, "out2": codes(out2), "hasb": False, "cb": {}, "outb": []}
     if nb is not None and ok:
         okb, _, outb, _, _ = fmt(mkdt(nb, False), prec, con)
@@ -135,6 +139,8 @@ def run(chk):
     if quick:
         rows = rows[:6000]
     n2 = 0
+    deviations = [0]
+    s2lines = []
     for r in rows:
         c, prec, con = r["c"], r["prec"], r["con"]
         exp = "".join(map(chr, r["text"]))
@@ -144,8 +150,9 @@ def run(chk):
             n2 += 1
             line = {"form": form, "c": c, "naive": naive, "src": [], "prec": prec, "con": con, "ok": ok, "exc": exc, "out": codes(got)}
             chk.case(sig(line))
-            if not ok or got != exp:
-                report(line, "differs_from_spec_text" if ok else "refused_in_range_datetime", "S2")
+            if ok and got != exp:
+                deviations[0] += 1
+            s2lines.append(observe(form, c, naive, None, prec, con))
         # the same instant handed over as canonical text: the output must be the same text again
         if c["off"] == 0 and prec == "any":
             ok, exc, got, _, _ = fmt(exp, prec, con)
@@ -154,17 +161,23 @@ def run(chk):
                 report({"form": "str", "c": c, "src": codes(exp), "prec": prec, "con": con, "ok": ok, "exc": exc, "out": codes(got)},
                        "canonical_text_not_fixed_point", "S2")
     chk.traces += 1
-    chk.stages["S2_spec_to_code"] = {"table_rows": len(rows), "executions": n2}
+    chk.stages["S2_spec_to_code"] = {"table_rows": len(rows), "executions": n2, "text_differs_from_model": deviations[0]}
     chk.sample({"S2_row": rows[0]})
 
     # ---- S3 code -> spec
     n = 6000 if quick else 150000
-    lines = []
+    lines = list(s2lines)
     for i in range(n):
         prec, con = rng.choice(PCS)
         c = rand_civil(rng)
         k = rng.random()
-        if k < 0.55:
+        if k < 0.15:
+            c["off"] = 0
+            try:
+                lines.append(observe("stixdt", c, False, None, prec, con, None, first=rng.choice(PCS)))
+            except OverflowError:
+                pass
+        elif k < 0.55:
             naive = rng.random() < 0.3
             if naive:
                 c["off"] = 0
@@ -179,15 +192,17 @@ def run(chk):
     for ln in lines:
         chk.case(sig(ln))
     batch = 20000
+    rejected = set()
     for i in range(0, len(lines), batch):
         part = lines[i:i + batch]
         for r in common.validate_trace(chk, "Trace_Timestamps", "Trace_Timestamps", part, "S3_code_to_spec"):
             report(part[r[0] - 1], r[2], "S3")
+            rejected.add(i + r[0] - 1)
     chk.sample({"trace_line": lines[0]})
     chk.sample({"trace_line": next(x for x in lines if x["form"] == "str")})
 
     # ---- S4 binding self-test
-    good = [x for x in lines[:300] if x["ok"] and x["form"] == "dt"][:50]
+    good = [x for i, x in enumerate(lines) if x["ok"] and x["form"] == "dt" and i not in rejected][:50]
     bad = [dict(x) for x in good]
     bad[7]["out"] = bad[7]["out"][:-2] + [bad[7]["out"][-2] ^ 1, 90]   # flip last digit before Z
     rej = common.validate_trace(chk, "Trace_Timestamps", "Trace_Timestamps", bad, "S4_selftest", count=False)
